@@ -7,11 +7,13 @@ package main
 import (
 	"encoding/json"
 	"fmt"
+	"os"
+	"runtime/pprof"
 
 	"verifharness/vlib"
 )
 
-const rule = "history case: >= 1 accepted read-key rotation AND >= 1 accepted admission (add / accept / invite-join) in the history; tree case: always (encrypted change built with the real tree and read back by every in-sync account)"
+const rule = "history case: >= 1 accepted read-key rotation AND >= 1 accepted admission (add / accept / invite-join) in the history; tree case: always (encrypted change built with the real tree and read back by every in-sync account); open case (one per history: every account keeps ONE open production tree for the whole history, writers write through it after every accepted record, everybody reads): >= 1 rotation AND >= 1 admission in the history"
 
 type caseDesc struct {
 	Kind    string   `json:"kind"`
@@ -26,6 +28,12 @@ type caseDesc struct {
 func main() {
 	o := vlib.ParseFlags()
 	vlib.Quiet()
+	if pf := os.Getenv("C05_PROF"); pf != "" { // development aid
+		if f, err := os.Create(pf); err == nil {
+			_ = pprof.StartCPUProfile(f)
+			defer pprof.StopCPUProfile()
+		}
+	}
 	w := vlib.NewWriter(o.Out, "C05_run", 40)
 	var samples []interface{}
 
@@ -45,7 +53,7 @@ func main() {
 		seen := map[key]bool{}
 		for _, raw := range vlib.ReadReplay(o.Replay) {
 			var d caseDesc
-			if err := json.Unmarshal(raw, &d); err != nil || (d.Kind != "hist" && d.Kind != "tree") {
+			if err := json.Unmarshal(raw, &d); err != nil || (d.Kind != "hist" && d.Kind != "tree" && d.Kind != "open") {
 				w.Stat("replay_unreadable_desc")
 				continue
 			}
@@ -68,6 +76,7 @@ func main() {
 			run(o.Seed, uint64(i), false)
 		}
 	}
+	closeAcctStores()
 	w.Finish(rule, samples, nil)
 	fmt.Printf("c05: %d cases, %d nontrivial, %d direct violations\n", w.Count(), w.NonTrivial, len(w.Direct))
 }
